@@ -20,7 +20,7 @@ RULE = ('configurations = routine x input x budget; inputs: every labelled 4-nod
         'explored over ALL generator answers; a configuration is non-trivial when >= 2 distinct outputs are reachable')
 ASSUMPTIONS = ['continuous draws are only compared with thresholds by these routines; they are represented by one point on '
                'each side of every threshold', 'state merging by live-variable state keys (DESIGN.md 1.3), cross-checked '
-               'against stateless enumeration by selftest/prune_equivalence.py',
+               'against stateless enumeration by selftest/selftest.py',
                'float64 inputs with empty diagonal']
 
 
